@@ -42,5 +42,15 @@ def run(rep, tier, seed):
                     h = multi.MultiHarness("%s/%s %s N=%d M=%d: standard = %s" % (system, pm or "-", "ext" if weakly else "strict", N, M, nm),
                                            [std, o], N, M, 2, q_single, same(["standard", nm]))
                     drive.run_op(rep, h)
+    # list orders of three conditionals for the operators that iterate over the base while
+    # enumerating correction sets
+    import itertools as _it
+    for system, pm in [("system-w", "rc2"), ("lex_inf", "rc2"), ("c-inference", "rc2")] if quick else []:
+        N, M = (3, 3) if system != "c-inference" else (2, 3)
+        for perm in [(2, 1, 0), (1, 2, 0)]:
+            std = dict(system=system, pm=pm, weakly=False, level="L2")
+            o = dict(std, order=list(perm))
+            h = multi.MultiHarness("%s/%s strict N=%d M=%d: standard = order-%s" % (system, pm, N, M, "".join(map(str, perm))), [std, o], N, M, 2, q_single, same(["standard", "permuted"]))
+            drive.run_op(rep, h)
     rep.assumptions.append("atom renaming, signature order and unused atoms are invisible to the operators by construction at this level (formulas are truth tables over world classes); they matter only for the ranking objects (C16-C18)")
     rep.assumptions.append("equivalent spellings: table-preserving rewrites with constants / double negation / idempotence on one position; arbitrary rewrites are covered semantically (tables range over all formulas) and syntactically by C15 part 1")
